@@ -15,6 +15,10 @@ for d in sorted(glob.glob('/verif/seeded/*/')):
     fp=(m.get('fingerprints_reported') or ['-'])[0]
     if len(fp)>80: fp=fp[:77]+'...'
     status='caught' if first else ('caught after strengthening' if m['detected'] else '**missed**')
+    if not m['detected'] and m.get('detected_only_by_another_propertys_check'):
+        status='missed by this check, caught by %s'%'/'.join(m.get('detected_by_checks',[]))
+    if not m['detected'] and m.get('not_applicable_reason'):
+        status='not detectable here (see text)'
     if not m.get('confirmed_by_me',True): status='not confirmed (discarded)'
     rows.append((name,w.replace('|','\\|'),status,fp.replace('|','\\|')))
 print('| change | what it does (author\'s first line) | result | first fingerprint reported |')
